@@ -564,14 +564,8 @@ class Interp:
                 self.assign(tt, vv, env)
         elif isinstance(t, ast.Attribute):
             o = self.ev(t.value, env)
-            if isinstance(o, Obj):
-                c, setter = o.cls.find_setter(t.attr)
-                if setter is not None:
-                    self.call_func(FuncV(c.mod, setter, self_obj=o, owner=c), [v], {})
-                else:
-                    o.fields[t.attr] = v
-            elif isinstance(o, Opaque):
-                pass
+            if isinstance(o, (Obj, Opaque)):
+                self.assign_attr(o, t.attr, v)
             else:
                 raise Unsupported(f"attr store on {o!r} at {self.mod.name}:{t.lineno}")
         elif isinstance(t, ast.Subscript):
@@ -585,6 +579,15 @@ class Interp:
                 raise Unsupported(f"subscript store {e} at {self.mod.name}:{t.lineno}")
         else:
             raise Unsupported(f"assign target {type(t).__name__}")
+
+    def assign_attr(self, o, attr, v):
+        if isinstance(o, Opaque):
+            return
+        c, setter = o.cls.find_setter(attr)
+        if setter is not None:
+            self.call_func(FuncV(c.mod, setter, self_obj=o, owner=c), [v], {})
+        else:
+            o.fields[attr] = v
 
     # ---- expressions
     def truth(self, v):
@@ -1058,7 +1061,7 @@ class Interp:
                     return kw["default"]
                 return (max if name == "max" else min)(xs, key=lambda x: self.call(key, [x], {}))
             if any(isinstance(x, Term) for x in xs):
-                return Term(f'{name}({",".join(map(repr, xs))})')
+                return Term(f'{name}({",".join(sorted(map(repr, xs)))})')
             if not xs:
                 if "default" in kw:
                     return kw["default"]
